@@ -97,11 +97,44 @@ class Ctx:
         self.queries['discharged'] += 1
         if r == z3.unknown:
             raise Inconclusive('solver returned unknown on an assertion query: ' + s.reason_unknown())
+        self.cross_check(s, r)
         if r == z3.unsat:
             self.queries['unsat'] += 1
             return None
         self.queries['sat'] += 1
         return s.model()
+
+    def cross_check(self, s, r):
+        """a sample of the assertion queries is re-decided by cvc5 from z3's SMT-LIB2 rendering; a disagreement stops the check (exit 2).
+        cvc5 answering unknown / timing out / rejecting a z3-specific construct is counted, not treated as agreement"""
+        cs = self.extra.setdefault('cross_solver', {'solver': 'cvc5 (--lang smt2)', 'sampled_queries': 0, 'agree': 0, 'undecided_by_cvc5': 0})
+        i = self.queries['discharged']
+        thorough = self.tier == 'thorough'
+        if os.environ.get('VERIF_NO_CROSSCHECK') or cs['sampled_queries'] >= (150 if thorough else 12):
+            return
+        if not (i <= (10 if thorough else 3) or i % (25 if thorough else 150) == 0):
+            return
+        import subprocess
+        cs['sampled_queries'] += 1
+        text = '(set-logic ALL)\n' + s.to_smt2()
+        t0 = time.time()
+        try:
+            p = subprocess.run(['cvc5', '--lang', 'smt2', '--tlimit=20000'], input=text, capture_output=True, text=True, timeout=40)
+            out = (p.stdout + '\n' + p.stderr).strip().splitlines()
+        except (subprocess.TimeoutExpired, OSError):
+            out = ['timeout']
+        self.queries['solver_s'] += time.time() - t0
+        verdict = next((l for l in out if l in ('sat', 'unsat')), None)
+        if verdict is None or any(l.startswith('(error') for l in out):
+            cs['undecided_by_cvc5'] += 1
+            return
+        if verdict != str(r):
+            d = os.path.join(VERIF, 'evidence', 'replays')
+            os.makedirs(d, exist_ok=True)
+            f = os.path.join(d, f'{self.pid}-solver-disagreement-{i}.smt2')
+            open(f, 'w').write(text)
+            raise Inconclusive(f'z3 says {r} and cvc5 says {verdict} on assertion query #{i} ({f})')
+        cs['agree'] += 1
 
     def witness(self, pc):
         """a model of the path condition (for vacuity checks and sample replays)"""
@@ -265,7 +298,7 @@ def main(pid, run, native=None):
         print('INCONCLUSIVE: build failed:', e)
         return 2
     except Exception as e:          # e.g. MIR the parser does not know: never a pass, never a crash
-        traceback.print_exc(limit=4)
+        traceback.print_exc(limit=-8)
         print(f'INCONCLUSIVE: could not set up the run: {type(e).__name__}: {e}')
         return 2
     try:
@@ -277,7 +310,7 @@ def main(pid, run, native=None):
             native(ctx)          # thorough tier: the native supplement always runs as well
         return ctx.finish()
     except Exception as e:           # Unsupported / Inconclusive / PathLimit / DecodeError, and any internal error of the machinery
-        traceback.print_exc(limit=6)
+        traceback.print_exc(limit=-8)
         print(f'INCONCLUSIVE: {type(e).__name__}: {e}')
         ctx.inconclusive.append(f'{type(e).__name__}: {e}')
         if native is not None:
